@@ -999,6 +999,11 @@ fn edge(construct: &str, tag: &str, next: &str) -> String {
         "call_arg" => format!("'{}' + idf({})", tag, next),
         "has" => format!("'{}' + (has({}) ? {} : 'absent')", tag, next, next),
         "coalesce" => format!("'{}' + coalesce({}, 'null')", tag, next),
+        // cycle-only constructs: the reference stands where an ordinary failure would be
+        // absorbed (by `||`) or stored (as a list element); running out of call depth is not
+        // an ordinary failure, the chain still ends in an error
+        "or_absorbed" => format!("'{}' + (({} || true) ? 'y' : 'n')", tag, next),
+        "list_element" => format!("'{}' + string(size([{}, 1]))", tag, next),
         _ => format!("f'{}{{{}}}'", tag, next),
     }
 }
@@ -1025,6 +1030,9 @@ enum Sc {
     ManyAbsorbed { form: usize, k: usize, n: usize },
     /// two contexts hold different programs under the same names
     TwoContexts,
+    /// a cycle whose programs reference the next one twice: it must end in an error, and
+    /// soon (the depth guard has to end the evaluation, not merely fail one operand)
+    CycleFan { form: usize, len: usize },
     /// a stored program referenced from a macro body reads the loop variable (it is evaluated
     /// under the same bindings, of which the loop variable is one)
     ProgReadsLoopVar { macro_kind: usize },
@@ -1162,6 +1170,18 @@ fn scenarios(thorough: bool) -> Vec<Sc> {
             for entry in 0..=1usize {
                 v.push(Sc::Cycle { construct: c, len, entry });
             }
+        }
+    }
+    for c in ["or_absorbed", "list_element"] {
+        for len in 1..=3usize {
+            for entry in 0..=1usize {
+                v.push(Sc::Cycle { construct: c, len, entry });
+            }
+        }
+    }
+    for form in 0..6usize {
+        for len in 1..=2usize {
+            v.push(Sc::CycleFan { form, len });
         }
     }
     for k in 0..5 {
@@ -1450,6 +1470,23 @@ fn build12(sc: &Sc, seed: u64) -> WorldCase {
             add(&mut ops, "ascall", format!("{}(x0)", n));
             expect(&mut ops, &mut r, "asvalue", Want::Val(tag(if *prog { "prog" } else { "param" }, n, uniq)));
             expect(&mut ops, &mut r, "ascall", Want::Val(tag("func", n, uniq)));
+        }
+        Sc::CycleFan { form, len } => {
+            ops.push(Op { t: t_exec, k: OpK::BindFunc { b: 0, name: "idf".into(), ret: V::Other("arg0".into()) } });
+            label = format!("cycle-fan-out-2:{}", ["bare", "macro_body", "fstring", "coalesce", "call_arg", "or_absorbed"][*form]);
+            for i in 0..*len {
+                let n = format!("c{}", (i + 1) % len);
+                let src = match form {
+                    0 => format!("{} + {}", n, n),
+                    1 => format!("[1].map(v, {})[0] + [1].map(v, {})[0]", n, n),
+                    2 => format!("f'{{{}}}{{{}}}'", n, n),
+                    3 => format!("coalesce({}, 'a') + coalesce({}, 'b')", n, n),
+                    4 => format!("idf({}) + idf({})", n, n),
+                    _ => format!("({} || true) && ({} || true)", n, n),
+                };
+                add(&mut ops, &format!("c{}", i), src);
+            }
+            expect(&mut ops, &mut r, "c0", Want::Fail);
         }
         Sc::TwoContexts => {
             label = "two-contexts-same-names".into();
